@@ -94,6 +94,49 @@ def st2_closed_means_err(ctx, rep):
     rep.floor(R, "closed-store paths", n, 3)
 
 
+def _none_means_disconnected(ctx, rep, rs):
+    """the `None` on which the loop ends means that every sender is gone: the wrapper waits with
+    crossbeam's blocking recv(); with recv_timeout / recv_deadline / try_recv an idle queue
+    would read as a closed one unless the error kind is looked at"""
+    from mirq.anchors import CB_DEQUEUE, CB
+    R = "ST3"
+    cb = ctx.prog.callee_body(rs)
+    if cb is None:
+        rep.anchor_missing(R, "body of the consumer's receive wrapper")
+        return
+    rep.note_fn(cb.path)
+    key = "none-means-disconnected:" + short(cb.path)
+    deq = [s for s in ctx.prog.sites(cb) if s.ck in CB_DEQUEUE]
+    if not rep.floor(R, "dequeue calls in the receive wrapper", len(deq), 1, ctx.where(cb)):
+        return
+    timed = [s for s in deq if s.ck != CB + "Receiver::recv"]
+    if not timed:
+        rep.ok(R, key, ctx.where(cb), "%s waits with the blocking recv(): None = disconnected" % short(cb.path))
+        return
+    pe = ctx.paths(cb, max_visits=2)
+    rep.stats["paths"] += len(pe.paths)
+    bad = None
+    for p in pe.paths:
+        if p.end != "return" or p.ret is None:
+            continue
+        rt = strip_wrap(p.ret)
+        is_none = (rt[0] == "agg" and rt[1].endswith("Option::None")) or (rt[0] == "resok")
+        if rt[0] == "resok":
+            # `.ok()` of the raw result: on the Err path the kind of error was not consulted
+            pass
+        if not is_none:
+            continue
+        for e in p.calls():
+            if e.site is not None and e.ck in {s_.ck for s_ in timed}:
+                kinds = [v for (k, v) in p.decisions if k == ("discr", ("vfield", e.result, "Err", 0))]
+                res = [v for (k, v) in p.decisions if k == ("discr", e.result)]
+                if (rt[0] == "resok" or (res and res[-1].lstrip("*") == "Err")) and not any(v.lstrip("*") == "Disconnected" for v in kinds):
+                    bad = (p, e)
+    rep.check(bad is None, R, key, ctx.where(cb), "a timeout of %s is told apart from disconnection" % [s_.ck.split("::")[-1] for s_ in timed],
+              "%s returns None when %s merely timed out / found the queue empty%s: the consumer loop ends while the store is open and later dispatches are accepted but never reduced"
+              % (short(cb.path), [s_.ck.split("::")[-1] for s_ in timed], "" if bad is None else " [%s]" % bad[0].describe()))
+
+
 def st3_loop_exits(ctx, rep):
     """the receive loop ends on the Exit marker or on disconnection, and only then"""
     R = "ST3"
@@ -105,6 +148,7 @@ def st3_loop_exits(ctx, rep):
     if not rep.exact(R, "receive sites in the consumer closure", len(recvs), 1, ctx.where(cl)):
         return
     rs = recvs[0]
+    _none_means_disconnected(ctx, rep, rs)
     loops = [(h, blks) for h, blks in cfg.loops().items() if rs.bb in blks]
     if not rep.exact(R, "loops around the receive", len(loops), 1, rs.where):
         return
